@@ -184,8 +184,11 @@ func declFeatures(f featureSet, ds []Decl, where string, fine bool) {
 		name := d.N
 		if strings.HasPrefix(name, "--") {
 			f.add("prop:--custom")
-			if strings.Contains(d.V, "var(") {
+			if i := strings.Index(d.V, "var("); i >= 0 {
 				f.add("custom:uses-var")
+				if strings.Contains(d.V[:i], "(") || strings.Contains(d.V[:i], "[") || strings.Contains(d.V[:i], "{") {
+					f.add("custom:var-inside-function") // a reference routed through a function / block / fallback
+				}
 			}
 			continue
 		}
